@@ -200,6 +200,27 @@ def planted_flag_events(ctx):
         core = {'pflags': ['C'], 'subs': [[[]]], 'op': op, 'form': form, 'enforce': True, 'hasid': True}
         ev.append({'sc': core, 'out': out, 'verified': bool(verified), 'predicted': -1, 'info': ('key flags %02x planted in the unhashed area: %s' % (planted, info)) if planted is not None else ('two-octet key flags %s: %s' % (hashed.hex(), info)), 'identity': None,
                    'planted': True})
+    # the most recent self-signature of the (only) identity is its REVOCATION: it grants nothing, so the primary keeps only what the
+    # format gives it (certify); with a signing subkey present that subkey must act
+    from pgpy.constants import KeyFlags
+    for label, subs_, op, form in (('revoked identity, no subkey', [], 'sign', 'private-unprotected'),
+                                   ('revoked identity, signing subkey', [('ed25519', {KeyFlags.Sign})], 'sign', 'private-unprotected'),
+                                   ('revoked identity, no encryption subkey', [], 'encrypt', 'public')):
+        with warnings.catch_warnings():
+            warnings.simplefilter('ignore')
+            try:
+                k = K.new_key('rsa2048' if op == 'encrypt' else 'ed25519', name='Revoked Identity', email='rev@x.org', usage={KeyFlags.Sign, KeyFlags.Certify, KeyFlags.EncryptCommunications}, subs=subs_)
+                k.userids[0] |= k.revoke(k.userids[0], created=K.ts(K.T0 + 300))
+                sec = pgpy.PGPKey.from_blob(bytes(k))[0]
+                pub = pgpy.PGPKey.from_blob(bytes(sec.pubkey))[0]
+            except Exception as ex:
+                ctx.note('revoked-identity key not constructible: %s' % repr(ex)[:100])
+                continue
+            out, verified, info = do_op(pgpy, op, pub if form == 'public' else sec, sec, pub, other, True)
+        if out is None:
+            continue
+        core = {'pflags': ['C'], 'subs': [[['S']]] if subs_ else [], 'op': op, 'form': form, 'enforce': True, 'hasid': True}
+        ev.append({'sc': core, 'out': out, 'verified': bool(verified), 'predicted': -1 if not subs_ else 1, 'info': label + ': ' + str(info), 'identity': None, 'planted': True})
     return ev
 
 
